@@ -45,6 +45,8 @@ def run(check: Check):
   c08.sorted_ids_rule(check, 'R-STREAM.sorted')
   # ... and only if reading a client in between does not disturb the pass (no cursor shared between queries)
   c08._cursors(check, 'R-STREAM.cursor')
+  # within a round no client repeats: the ids the sampler draws from are distinct
+  c08.subset_ids_are_a_set(check, 'R-CHOICE.distinct')
   ka = KeyAnalysis(repo)
   for ci in (get, shf):
     check_function(check, ka, ci.method('sample'), 'R-KEY', step_like=False)
